@@ -537,10 +537,14 @@ Proof.
   intros H. unfold detach_server. destruct (get_srv n (c_servers c)) as [s|]; [|exact H].
   pose proof (Acct_del_server c n H) as H0.
   destruct (s_parent s) as [p|]; [|exact H0].
-  eapply Acct_same_core; [|exact H0].
-  eapply same_core_trans; [apply same_core_upd_bkt|].
-  eapply same_core_trans; [apply propagate_traits_sc|].
-  eapply same_core_trans; [apply bump_affinity_sc|apply adjust_down_sc].
+  eapply Acct_same_core; [apply unhook_server_sc|exact H0].
+Qed.
+
+Lemma Acct_move_server c n p : Acct c -> Acct (move_server c n p).
+Proof.
+  intros H. unfold move_server. destruct (get_srv n (c_servers c)) as [s|]; [|exact H].
+  eapply Acct_same_core; [apply attach_common_sc|]. apply Acct_upd_srv_soft; [intros x; repeat split|].
+  destruct (s_parent s) as [p0|]; [eapply Acct_same_core; [apply unhook_server_sc|exact H]|exact H].
 Qed.
 
 Lemma srv_remove_app_server c sn an a s :
@@ -615,6 +619,7 @@ Proof.
     apply Acct_add_server; cbn; auto.
   - (* ORemoveServer *)
     apply Acct_detach. destruct raw; [exact HA|apply Acct_srv_remove_all; exact HA].
+  - apply Acct_move_server; exact HA.
   - (* OSetState *)
     unfold srv_set_state. destruct (get_srv name (c_servers c)) as [s|]; [|exact HA].
     destruct (sstate_eqb (s_state s) st); [exact HA|].
